@@ -1714,6 +1714,10 @@ pub struct Session {
   /// the backing file (`backend=file` only); removed when the session ends
   file: Option<PathBuf>,
   case: Option<Box<dyn CaseInner>>,
+  /// is the running arena a shared writable mapping of the file (created, or reopened with `mut`)?
+  shared: bool,
+  /// flavour of the running arena
+  cur_sync: bool,
 }
 
 impl Session {
@@ -1731,6 +1735,54 @@ impl Session {
       "filehash" => {
         argc(1)?;
         format!("r=ok {}", sig())
+      }
+      // the process is killed NOW (between two operations): copy the file as the page cache holds it, open the copy
+      // writable and compare what it finds with the running arena (cursor, discarded, minimum segment, free list,
+      // hash of the allocated bytes); `ce=na` for sessions that are not shared writable mappings
+      "crashcheck" => {
+        argc(1)?;
+        if closed {
+          return Some("r=closed".to_string());
+        }
+        if !self.shared {
+          return Some("r=ok ce=na cr=na".to_string());
+        }
+        let crash = path.with_extension("crash");
+        let _ = std::fs::remove_file(&crash);
+        if std::fs::copy(&path, &crash).is_err() {
+          return Some("r=ok ce=0 cr=copy-failed".to_string());
+        }
+        let pick = |st: &str| -> String {
+          st.split(' ').filter(|t| ["al=", "di=", "ms=", "fl=", "ma="].iter().any(|k| t.starts_with(k))).collect::<Vec<_>>().join(" ")
+        };
+        let live = self.case.as_mut().and_then(|c| c.reopen_obs()).map(|(_, st)| pick(&st));
+        let r = Reopen {
+          mode: MapMode::Mut,
+          cap: None,
+          magic: self.cfg.magic,
+          freelist: self.cfg.freelist,
+          create: false,
+          sync: self.cur_sync,
+          reserved: self.cfg.reserved,
+          minseg: self.cfg.minseg,
+          trunc: false,
+          pb: false,
+        };
+        let built: Result<Box<dyn CaseInner>, String> = if r.sync {
+          Case::<sync::Arena>::reopen(&self.cfg, &r, &crash).map(|c| Box::new(c) as Box<dyn CaseInner>)
+        } else {
+          Case::<unsync::Arena>::reopen(&self.cfg, &r, &crash).map(|c| Box::new(c) as Box<dyn CaseInner>)
+        };
+        let ans = match built {
+          Err(kind) => format!("r=ok ce=0 cr={kind}"),
+          Ok(mut c) => {
+            let rec = c.reopen_obs().map(|(_, st)| pick(&st));
+            drop(c);
+            format!("r=ok ce={} cr=ok", (live.is_some() && live == rec) as u8)
+          }
+        };
+        let _ = std::fs::remove_file(&crash);
+        ans
       }
       "close" => {
         argc(1)?;
@@ -1771,6 +1823,8 @@ impl Session {
           Ok(mut c) => {
             let obs = c.reopen_obs();
             self.case = Some(c);
+            self.shared = r.mode == MapMode::Mut;
+            self.cur_sync = r.sync;
             match obs {
               Some((head, state)) => format!("r=ok {head} pk={} {} {state}", pk(&path), sig()),
               None => "r=panic".to_string(),
@@ -1825,7 +1879,7 @@ impl CaseApi for Session {
   fn exec(&mut self, line: &str) -> String {
     let t: Vec<&str> = line.split(' ').collect();
     match t[0] {
-      "close" | "reopen" | "mutate_file" | "truncate_file" | "random_file" | "delete_file" | "filehash" => {
+      "close" | "reopen" | "mutate_file" | "truncate_file" | "random_file" | "delete_file" | "filehash" | "crashcheck" => {
         self.file_op(&t).unwrap_or_else(|| "bad-op".to_string())
       }
       op => match &mut self.case {
@@ -1883,7 +1937,8 @@ pub fn open_session(
   };
   let session = case.map(|mut c| {
     let file = c.disown_file();
-    Box::new(Session { cfg, force_sync: ov.sync, file, case: Some(c) }) as Box<dyn CaseApi>
+    let cur_sync = cfg.sync;
+    Box::new(Session { cfg, force_sync: ov.sync, file, case: Some(c), shared: true, cur_sync }) as Box<dyn CaseApi>
   });
   (session, ans)
 }
